@@ -13,6 +13,7 @@ import PcProofs.LeafLoops
 import PcProofs.LeafSigma
 import PcProofs.LeafTrivial
 import PcModel.Drv.LeafLoops
+import PcProofs.FormulasMain
 
 namespace Pc.C08Leaf
 open Pc.Spec
@@ -194,6 +195,52 @@ theorem s2_trivial_loop_op {t : NT} {w : ITy} {x y c : ℕ} (ht : Drv.leafTable 
 theorem s2_trivial_rejects_c0 (t : NT) (w : ITy) (x z : ℕ) {y : ℕ} (hy2 : 2 ≤ y) :
     s2Trivial t w x y z 0 = .error .pc := s2Trivial_throws t w x z hy2
 
+/-! ### the loop mirrors inside the two identities (C02: every decomposition adds up to π(x)) -/
+
+/-- Deleglise-Rivat with S1 and S2_trivial computed by the REAL control flow (any thread distribution): for every `y` with
+    `y² ≤ x < (y+1)³`, `1 ≤ c ≤ min(8, π y)`, the two mirrors return values which, with the remaining (executable
+    defining-sum) terms, add up to π(x) -/
+theorem dr_total_with_loops {t : NT} (hv : t.Valid) {w : ITy} {x y c : ℕ} (hcov : t.Covers x y) (hy1 : 1 ≤ y)
+    (hy2 : y * y ≤ x) (hy3 : x < (y + 1) ^ 3) (hc1 : 1 ≤ c) (hc : c ≤ Nat.primeCounting y) (hc8 : c ≤ 8)
+    (hw : y * y ≤ w.maxVal) (hy63 : y ≤ ITy.i64.maxVal) {sched : List (List ℕ)}
+    (hs : IsSchedule (c + 1) (Nat.primeCounting y) sched) :
+    ∃ s1v tv : ℤ, s1OpenMP t w x y c sched = .ok s1v ∧ s2Trivial t w x y (x / y) c = .ok tv ∧
+      s1v + tv + t.S2easy x y (x / y) c + t.S2hard x y (x / y) c + (t.piOf y : ℤ) - 1 - t.P2 x y
+        = (Nat.primeCounting x : ℤ) := by
+  refine ⟨S1 x y c, S2_trivial x y c, s1OpenMP_eq hv hy1 hcov.hy hc8 hw hs,
+    s2Trivial_eq hv hy1 hcov.hy hy2 hc1 hc hw hy63, ?_⟩
+  have := NT_dr_total hv hcov hy1 hy2 hy3 hc
+  rwa [NT.S1_eq hv (le_trans hc (Spec.pi_mono hcov.hy)), NT.S2trivial_eq hv hy1 hcov.hy hy2 hc] at this
+
+/-- Gourdon with Φ0 and Σ computed by the REAL control flow: for every `(y, z)` with `x^(1/3) < y ≤ z ≤ √x`,
+    `k ≤ min(8, π ⌊x^(1/4)⌋)`, the two mirrors return values which, with `A`, `B`, `C`, `D`, add up to π(x) -/
+theorem gourdon_total_with_loops {t : NT} (hv : t.Valid) {w : ITy} {x y z k : ℕ} (hcov : t.Covers x y)
+    (hy : irootN 3 x < y) (hy2 : y * y ≤ x) (hyz : y ≤ z) (hz : z * z ≤ x)
+    (hk : k ≤ Nat.primeCounting (irootN 4 x)) (hk8 : k ≤ 8) (hw : z * y ≤ w.maxVal)
+    (h63 : t.bound ≤ ITy.i64.maxVal) {sched : List (List ℕ)} (hs : IsSchedule (k + 1) (Nat.primeCounting y) sched) :
+    ∃ p0 sg : ℤ, phi0OpenMP t w x y z k sched = .ok p0 ∧ sigma t w x y = .ok sg ∧
+      t.A x y + t.C x y z k - t.B x y + t.D x y z k + p0 + sg = (Nat.primeCounting x : ℤ) := by
+  have hy1 : 1 ≤ y := by omega
+  have hxs1 := one_le_xStar x y
+  have h4 : x / (xStar x y * y) ≤ ITy.i64.maxVal :=
+    le_trans (le_trans (Nat.div_le_div_left (Nat.le_mul_of_pos_left y hxs1) hy1) hcov.hxy) h63
+  have h6 : Nat.sqrt (x / xStar x y) ≤ ITy.i64.maxVal :=
+    le_trans (le_trans (Nat.sqrt_le_sqrt (Nat.div_le_self _ _)) hcov.hs) h63
+  have hk4 : irootN 4 x ≤ y := by
+    have h1 := (irootN_spec 4 x (by omega)).1
+    have h2 := (irootN_spec 3 x (by omega)).2
+    have h3 : (irootN 3 x + 1) ^ 3 ≤ y ^ 3 := Nat.pow_le_pow_left hy 3
+    have h4' : y ^ 3 ≤ y ^ 4 := Nat.pow_le_pow_right hy1 (by omega)
+    by_contra h
+    push Not at h
+    have h5 : y ^ 4 < irootN 4 x ^ 4 := Nat.pow_lt_pow_left h (by omega)
+    omega
+  refine ⟨Phi0 x y z k, t.Sigma x y,
+    phi0OpenMP_eq hv hy1 hcov.hy hk8 hyz hw hs,
+    sigma_eq_NT hv hy1 hy.le hcov.hy (le_trans (Nat.mul_le_mul_right y hyz) hw) h4 h6, ?_⟩
+  have := NT_gourdon_total hv hcov hy hy2 hyz hz hk
+  rwa [NT.Phi0_eq hv (le_trans hk (Spec.pi_mono (le_trans hk4 hcov.hy)))] at this
+
 /-! ### non-vacuity: the hypotheses are met by concrete non-trivial instances -/
 
 example := s1_loop_eq_def (NT.build_valid 100) (w := .i64) (x := 1000) (y := 12) (c := 2) (by norm_num)
@@ -218,6 +265,17 @@ example := sigma_loop_eq_def (NT.build_valid 2000) (w := .i64) (x := 100000) (y 
 example := s2_trivial_loop_eq_def (NT.build_valid 100) (w := .i64) (x := 1000) (y := 12) (c := 2) (by norm_num)
   (by show 12 ≤ 100; norm_num) (by norm_num) (by norm_num)
   (by rw [show Nat.primeCounting 12 = 5 by decide]; norm_num) (by decide) (by decide)
+example := dr_total_with_loops (NT.build_valid 100) (w := .i64) (x := 1000) (y := 12) (c := 2)
+  (covers_build (by norm_num) (by norm_num) (by norm_num)) (by norm_num) (by norm_num) (by norm_num) (by norm_num)
+  (by rw [show Nat.primeCounting 12 = 5 by decide]; norm_num) (by norm_num) (by decide) (by decide)
+  (static_schedule_is_schedule 3 (Nat.primeCounting 12) 12 2)
+example := gourdon_total_with_loops (NT.build_valid 2000) (w := .i128) (x := 100000) (y := 60) (z := 100) (k := 2)
+  (covers_build (by norm_num) (by norm_num) (by norm_num))
+  (by rw [irootN_eq_of (r := 46) (by norm_num) (by norm_num) (by norm_num)]; norm_num)
+  (by norm_num) (by norm_num) (by norm_num)
+  (by rw [irootN_eq_of (r := 17) (by norm_num) (by norm_num) (by norm_num),
+        show Nat.primeCounting 17 = 7 by decide]; norm_num)
+  (by norm_num) (by decide) (by show 2000 ≤ _; decide) (static_schedule_is_schedule 3 (Nat.primeCounting 60) 60 3)
 example := s2_trivial_rejects_c0 (NT.build 10) .i64 1000 83 (y := 12) (by norm_num)
 
 end Pc.C08Leaf
@@ -239,3 +297,5 @@ end Pc.C08Leaf
 #print axioms Pc.C08Leaf.s2_trivial_rejects_c0
 #print axioms Pc.C08Leaf.sigma_loop_op
 #print axioms Pc.C08Leaf.s2_trivial_loop_op
+#print axioms Pc.C08Leaf.dr_total_with_loops
+#print axioms Pc.C08Leaf.gourdon_total_with_loops
